@@ -450,6 +450,9 @@ pub fn gen_solve(r: &mut Rng, tier: &str, rooms: u8, name: &'static str) -> Vec<
             if rooms == 2 && i % 20 == 9 {
                 inst = gen::gen_freed_instructor_room_bound(r);
             }
+            if rooms == 2 && i % 20 == 19 {
+                inst = gen::gen_wide_room_range(r);
+            }
             if i % 150 == 77 {
                 inst = gen::gen_big_min_course(r);
             }
@@ -532,7 +535,10 @@ pub fn run_solve(data: &Value) -> Vec<Line> {
                                 let sol_id = res.as_ref().and_then(|(a, _)| label(a));
                                 let result = sched::stats_json(res.as_ref().map(|(_, sc)| (sol_id.unwrap_or(usize::MAX) as u64, *sc)), st);
                                 let req = json!({"threads": threads, "nodes": nodes_json, "trace": tj, "result": result});
-                                lines.push(Line::corr(&["C03", "C04"], "T", req.to_string(), "ok".to_string()).trivial(ft.nodes.len() < 3));
+                                // (C02 too: its theorem composes the engine with the node solver, and `caobab::solve`
+                                // hands the engine a closure AROUND `run_bab_node` — anything that closure adds, e.g. a
+                                // pruning rule of its own, shows as a run that no longer follows the tree of `run_bab_node`)
+                                lines.push(Line::corr(&["C02", "C03", "C04"], "T", req.to_string(), "ok".to_string()).trivial(ft.nodes.len() < 3));
                             }
                         }
                     }
@@ -669,7 +675,24 @@ pub fn gen_engine(r: &mut Rng, tier: &str, with_panic: bool, name: &'static str)
     (0..n)
         .map(|i| {
             let wide = !with_panic && i % 25 == 7;
-            let tree = if wide { gen::gen_wide_tree(r) } else { gen::gen_tree(r, if i % 3 == 0 { 40 } else { 12 }, with_panic) };
+            let mut tree = if wide { gen::gen_wide_tree(r) } else { gen::gen_tree(r, if i % 3 == 0 { 40 } else { 12 }, with_panic) };
+            if i % 16 == 5 {
+                // a root (sometimes also its first inner child) that knows no bound: the largest score value
+                // there is — the same value the queue entry of the root itself carries
+                let mut unbounded = vec![0usize];
+                if let Kind::Infeasible(kids, _) = &tree.nodes[0].1 {
+                    if i % 32 == 5 {
+                        if let Some(k) = kids.iter().find(|k| matches!(tree.nodes[**k as usize].1, Kind::Infeasible(..))) {
+                            unbounded.push(*k as usize);
+                        }
+                    }
+                }
+                for u in unbounded {
+                    if let Kind::Infeasible(kids, _) = tree.nodes[u].1.clone() {
+                        tree.nodes[u].1 = Kind::Infeasible(kids, u32::MAX);
+                    }
+                }
+            }
             let ns = if wide { 2 } else { scale(tier, 4, 10) };
             let scheds: Vec<Value> = (0..ns).map(|_| Sched::gen(r).to_json()).collect();
             let threads: Vec<u64> = (0..ns)
@@ -740,6 +763,9 @@ pub fn run_engine(data: &Value) -> Vec<Line> {
             let executed_panic = out.trace.iter().any(|e| matches!(e, cdecao::verif::sched::Event::Exit(_, true)));
             lines.push(Line::direct(&["C19"], executed_panic == out.result.is_err(),
                 format!("a worker failed: {}, bab::solve propagated the failure: {} ({})", executed_panic, out.result.is_err(), tag)).trivial(!executed_panic));
+            // … and nobody stays behind: once `solve` has returned or failed, no worker is left waiting
+            lines.push(Line::direct(&["C19"], out.leftover == 0,
+                format!("bab::solve ended (failure propagated: {}) with {} worker thread(s) still waiting ({})", out.result.is_err(), out.leftover, tag)).trivial(!out.result.is_err()));
         }
         let req = json!({"threads": threads, "nodes": tree.to_json(), "trace": tj, "result": result});
         let exp = "ok".to_string();
